@@ -6,7 +6,7 @@ import ast
 from .. import anchors as A
 from ..consteval import try_fold
 from ..flow import ANY_EXC
-from ..model import AnalysisError, FuncInfo, Project, call_name, kwarg, walk_local
+from ..model import AnalysisError, FuncInfo, Project, call_name, kwarg, local_values, walk_local
 from ..paths import PState, PathAnalysis, run_paths, subst_text
 from ..report import Report
 from ..roles import incoming_send_calls, send_end_of
@@ -21,6 +21,13 @@ def incremental_decoder_def(fn: ast.AST, name: str):
     if len(defs) != 1:
         return None
     v = defs[0].value
+    if isinstance(v, ast.Attribute) and isinstance(v.value, ast.Name) and v.value.id == "self":
+        # `decoder = self._decoder`, the attribute itself bound once in this function
+        adefs = [s for s in walk_local(fn) if isinstance(s, ast.Assign) and len(s.targets) == 1 and ast.unparse(s.targets[0]) == ast.unparse(v)]
+        if len(adefs) != 1:
+            return None
+        defs = adefs
+        v = adefs[0].value
     if not isinstance(v, ast.Call):
         return None
     errors = kwarg(v, "errors") or (v.args[0] if v.args else None)
@@ -47,6 +54,39 @@ def check(P: Project, R: Report) -> None:
     R.fn(rd.fq)
     rel = rd.module.rel
     chunk = ast.unparse(loop.target)
+
+    # ------------------------------------------------------------------ R2, lifetime of what is carried between reads
+    # Whatever carries text from one read to the next (buffer, decoder, a framing object) belongs to one child's stream:
+    # held in an attribute that only the constructor sets, it survives into the next session on the same client object.
+    cl_ = rd.cls
+    lv_ = local_values(rd.node)
+
+    def _self_attr_of(e):
+        if isinstance(e, ast.Name):
+            vs = [v for v in lv_.get(e.id, []) if v is not None]
+            if len(vs) == 1:
+                e = vs[0]
+        if isinstance(e, ast.Attribute) and isinstance(e.value, ast.Name) and e.value.id == "self":
+            return e.attr
+        return None
+
+    carriers = {}
+    for n in walk_local(loop):
+        if isinstance(n, ast.Call) and isinstance(n.func, ast.Attribute) and any(isinstance(a, ast.Name) and a.id == chunk for a in n.args):
+            a_ = _self_attr_of(n.func.value)
+            if a_:
+                carriers.setdefault(a_, n)
+        if isinstance(n, ast.AugAssign):
+            a_ = _self_attr_of(n.target)
+            if a_ and any(isinstance(x, ast.Name) and x.id == chunk for x in ast.walk(n.value)) or (a_ and any(isinstance(c_, ast.Call) and isinstance(c_.func, ast.Attribute) and c_.func.attr == "decode" for c_ in ast.walk(n.value))):
+                carriers.setdefault(a_, n)
+    if cl_ is not None:
+        ms_ = P.methods(cl_)
+        for a_, n in sorted(carriers.items()):
+            fresh = [m.name for m in ms_.values() if m.name in (rd.name, "__aenter__") or m.name in {call_name(c_)[5:] for mm in (ms_.get("__aenter__"),) if mm is not None for c_ in walk_local(mm.node) if isinstance(c_, ast.Call) and call_name(c_).startswith("self.")}
+                     if any(isinstance(s_, (ast.Assign, ast.AnnAssign)) and any(ast.unparse(t) == f"self.{a_}" for t in (s_.targets if isinstance(s_, ast.Assign) else [s_.target])) and s_ not in list(walk_local(loop)) for s_ in walk_local(m.node))]
+            R.ob("R2", f"what is carried between reads (self.{a_}) starts empty for every child", bool(fresh), f"{rel}:{n.lineno}",
+                 f"`{ast.unparse(n)[:60]}` keeps the undelivered tail in self.{a_}, which is only created by the constructor: a second session on the same client object starts with the previous child's leftover, and the first line the new child writes is glued to it and lost")
 
     # ------------------------------------------------------------------ R1
     decodes = [c for c in walk_local(loop) if isinstance(c, ast.Call) and isinstance(c.func, ast.Attribute) and c.func.attr == "decode"]
